@@ -8,8 +8,14 @@ Cases
   kind "model": a generated grammar (classes with name / str / int / float / bool /
       primitive-list / mixed-list / containment / reference attributes), a generated
       object tree with hostile string values, 1..3 model files with hostile file names;
-      exported single, through `repo=`, through a global repository, through the file
-      API or through the `any -> dot` generator.
+      a *repository situation*: scope provider of the metamodel (plain function, ImportURI
+      with glob or search path, GlobalRepo with registered files), metamodel-wide global
+      repository or not, import statements between the files (also cyclic) with references
+      across files, a history of explicit loads (from file / from string) and the call
+      `model_export_to_file(f, model, repo)` with model = one of the loaded models or None and
+      repo = None / [] / a list of models / the (possibly empty) `all_models` of a model or
+      of the metamodel; through the file object, the file API or the `any -> dot` generator.
+      (cases with the older field "mode" are read as the corresponding situation.)
   kind "mm": a generated grammar (common / abstract / match rules, hostile string and
       regex matches, base types, OBJECT, references, all multiplicities) exported with
       the DOT or the PlantUML renderer (file object, file API, generators).
@@ -20,6 +26,8 @@ Tie T: `harness/c29_translate.py` regenerates `Gen/DotExport.lean` from export.p
 Tie X: the Lean model renders the same text from a dump of what the export reads; the
 Lean recogniser and the Python DOT parser must agree on the real text.
 """
+import copy
+import glob
 import io
 import os
 import re
@@ -257,9 +265,14 @@ def assign_refs(rng, classes, root):
     return True
 
 
-def grammar_text(classes):
+def grammar_text(classes, wrap=False, imports=False):
     ncls = len(classes)
     lines = []
+    if wrap and imports:  # models of a language with import statements: Model(imports, root)
+        lines.append("Model: imports*=Import root=C0;")
+        lines.append("Import: 'import' importURI=Imp;")
+    elif wrap:
+        lines.append("Model: 'model' root=C0;")
     for ci, c in enumerate(classes):
         parts = []
         for a in c["attrs"]:
@@ -294,8 +307,15 @@ def grammar_text(classes):
         lines.append(f"C{ci}: 'c{ci}' '{{' {' '.join(parts)} '}}';")
     lines.append("Val: Str | STRICTFLOAT | INT | " + " | ".join(f"C{i}" for i in range(ncls)) + ";")
     lines.append(r"Str: /s\d+/;")
-    lines.append(r"Ref: /r\d+/;")
+    lines.append(r"Ref: /(x\d+)?r\d+/;")
+    if wrap and imports:
+        lines.append(r"Imp: /f\d+/;")
     return "\n".join(lines) + "\n"
+
+
+def ref_text(v):
+    """a reference: index k in the own file (`r<k>`) or {"x": file, "r": k} (`x<file>r<k>`)"""
+    return f"x{v['x']}r{v['r']}" if isinstance(v, dict) else f"r{v}"
 
 
 def obj_text(classes, o):
@@ -335,11 +355,213 @@ def obj_text(classes, o):
         elif k == "children":
             parts += [n, "[", " ".join(obj_text(classes, x) for x in v), "]"]
         elif k == "ref":
-            parts += [n, f"r{v}"]
+            parts += [n, ref_text(v)]
         else:
-            parts += [n, "[", " , ".join(f"r{x}" for x in v), "]"]
+            parts += [n, "[", " , ".join(ref_text(x) for x in v), "]"]
     parts.append("}")
     return " ".join(parts)
+
+
+def file_text(case, fi):
+    f = case["files"][fi]
+    body = obj_text(case["classes"], f["root"])
+    if has_imports(case):
+        return "".join(f"import f{j}\n" for j in f.get("imports", [])) + body
+    if is_wrapped(case):
+        return "model " + body
+    return body
+
+
+# --------------------------------------------------------------------------
+# repository situations
+# --------------------------------------------------------------------------
+PROVS = ("own", "import", "import_sp", "globrepo")
+
+
+def has_imports(case):
+    return case.get("prov", "own").startswith("import")
+
+
+def is_wrapped(case):
+    """the model root is an object of a class `Model` around the generated C0 object"""
+    return has_imports(case) or bool(case.get("wrapper"))
+
+
+def make_falsy_class(how):
+    """a user class for the model root whose instances are falsy, as container-like classes are
+    (`__len__` over the elements of an empty model) """
+
+    def init(self, parent=None, **kw):
+        for k, v in kw.items():
+            setattr(self, k, v)
+
+    body = {"__init__": init}
+    if how == "len":
+        body["__len__"] = lambda self: 0
+    else:
+        body["__bool__"] = lambda self: False
+    return type("Model", (), body)
+
+
+def normalize_case(case):
+    """cases written before the repository situations existed carry a "mode" """
+    if "call" in case:
+        return case
+    mode = case.get("mode", "single")
+    n = len(case["files"])
+    c = dict(case, prov="own", mm_global=(mode == "global"), reg=[])
+    c.pop("mode", None)
+    how = "str" if mode in ("single", "repo_str") else "file"
+    if mode in ("single", "file", "fileapi", "generator"):
+        c["loads"] = [{"f": 0, "how": how}]
+        c["call"] = {"model": 0, "repo": None,
+                     "via": {"fileapi": "fileapi", "generator": "generator"}.get(mode, "tofile")}
+    elif mode in ("repo_arg", "repo_str"):
+        c["loads"] = [{"f": i, "how": how} for i in range(n)]
+        c["call"] = {"model": None, "repo": {"t": "list", "of": list(range(n))}, "via": "tofile"}
+    else:
+        c["loads"] = [{"f": i, "how": "file"} for i in range(n)]
+        c["call"] = {"model": n - 1, "repo": None, "via": "tofile"}
+    return c
+
+
+def visible_files(case, fi):
+    """files whose objects a reference in file fi may name (`local_models` of the loaded model)"""
+    prov = case.get("prov", "own")
+    if prov.startswith("import"):
+        return [j for j in case["files"][fi].get("imports", []) if j != fi]
+    if prov == "globrepo":
+        return [j for j in case.get("reg", []) if j != fi]
+    return []
+
+
+def all_refs(classes, root):
+    for o in preorder(classes, root, []):
+        for a in classes[o["c"]]["attrs"]:
+            if a["k"] in ("ref", "refs") and a["n"] in o["vals"]:
+                v = o["vals"][a["n"]]
+                for t in (v if isinstance(v, list) else [v]):
+                    yield a, t
+
+
+def valid_case(case):
+    """structural validity of a (normalised) model case — used by the generator and the shrinker"""
+    files, classes = case["files"], case["classes"]
+    n = len(files)
+    prov = case.get("prov", "own")
+    if prov not in PROVS or n == 0 or len({f["fname"] for f in files}) != n:
+        return False
+    pre = [preorder(classes, f["root"], []) for f in files]
+    for fi, f in enumerate(files):
+        imps = f.get("imports", [])
+        if imps and not prov.startswith("import"):
+            return False
+        if any(not (0 <= j < n) for j in imps) or len(set(imps)) != len(imps):
+            return False
+        vis = visible_files(case, fi)
+        for a, t in all_refs(classes, f["root"]):
+            if isinstance(t, dict):
+                if t["x"] not in vis or not (0 <= t["r"] < len(pre[t["x"]])) or pre[t["x"]][t["r"]]["c"] != a["c"]:
+                    return False
+            elif not isinstance(t, int) or not (0 <= t < len(pre[fi])) or pre[fi][t]["c"] != a["c"]:
+                return False
+    if any(not (0 <= j < n) for j in case.get("reg", [])) or (case.get("reg") and prov != "globrepo"):
+        return False
+    loads = case["loads"]
+    if not loads:
+        return False
+    for ld in loads:
+        if not (0 <= ld["f"] < n) or ld["how"] not in ("file", "str"):
+            return False
+        if ld["how"] == "str" and files[ld["f"]].get("imports"):
+            return False  # textX cannot resolve imports of a model without a file name
+    call = case["call"]
+    ks = [] if call["model"] is None else [call["model"]]
+    r = call["repo"]
+    if r is not None:
+        ks += r["of"] if r["t"] == "list" else ([r["of"]] if r["t"] == "own" else [])
+        if r["t"] == "mm" and not case.get("mm_global"):
+            return False
+    if any(not (0 <= k < len(loads)) for k in ks):
+        return False
+    if case.get("falsy") not in (None, "len", "bool") or (case.get("falsy") and not is_wrapped(case)):
+        return False
+    if call["via"] == "generator" and (call["model"] is None or r is not None or loads[call["model"]]["how"] != "file"):
+        return False  # the generator derives the output file name from the file name of the model
+    return call["via"] in ("tofile", "fileapi", "generator")
+
+
+def assign_cross_refs(rng, case):
+    """let some references point into a file that is visible from the referencing one"""
+    classes = case["classes"]
+    pre = [preorder(classes, f["root"], []) for f in case["files"]]
+    for fi, f in enumerate(case["files"]):
+        vis = visible_files(case, fi)
+        if not vis:
+            continue
+        for o in pre[fi]:
+            for a in classes[o["c"]]["attrs"]:
+                if a["k"] not in ("ref", "refs") or a["n"] not in o["vals"]:
+                    continue
+
+                def cross(t):
+                    if not rng.chance(0.45):
+                        return t
+                    j = rng.choice(vis)
+                    cands = [k for k, x in enumerate(pre[j]) if x["c"] == a["c"]]
+                    return {"x": j, "r": rng.choice(cands)} if cands else t
+
+                v = o["vals"][a["n"]]
+                o["vals"][a["n"]] = [cross(t) for t in v] if isinstance(v, list) else cross(v)
+
+
+def gen_situation(rng, nfiles, files):
+    """scope provider, global repository, imports, load history and the call"""
+    prov = rng.weighted([("own", 5), ("import", 5), ("import_sp", 1), ("globrepo", 2)])
+    mm_global = rng.chance(0.35)
+    reg = []
+    if prov.startswith("import"):
+        for i, f in enumerate(files):
+            f["imports"] = [j for j in range(nfiles) if j != i and rng.chance(0.4)]
+    elif prov == "globrepo":
+        reg = [j for j in range(nfiles) if rng.chance(0.5)]
+    loads = []
+    for _ in range(rng.weighted([(1, 4), (2, 3), (3, 2)])):
+        fi = rng.below(nfiles)
+        how = "file" if files[fi].get("imports") or rng.chance(0.6) else "str"
+        loads.append({"f": fi, "how": how})
+    if mm_global and prov != "own" and rng.chance(0.4):
+        # a model loaded from a string after a model loaded from a file: it carries the shared
+        # repository of the metamodel without being a member of it
+        free = [i for i in range(nfiles) if not files[i].get("imports")]
+        if free:
+            loads = [{"f": rng.below(nfiles), "how": "file"}] + loads[:1] + [{"f": rng.choice(free), "how": "str"}]
+    nl = len(loads)
+    last = nl - 1 if rng.chance(0.7) else rng.below(nl)
+    shape = rng.weighted([("model", 10), ("model+empty", 2), ("model+own", 2), ("list", 4), ("own", 2),
+                          ("mm", 2 if mm_global else 0), ("both", 1), ("neither", 1)])
+    if shape == "model":
+        call = {"model": last, "repo": None}
+    elif shape == "model+empty":
+        call = {"model": last, "repo": {"t": "list", "of": []}}
+    elif shape == "model+own":
+        call = {"model": last, "repo": {"t": "own", "of": last if rng.chance(0.7) else rng.below(nl)}}
+    elif shape == "list":
+        call = {"model": None, "repo": {"t": "list", "of": [rng.below(nl) for _ in range(rng.randint(1, 3))]}}
+    elif shape == "own":
+        call = {"model": None, "repo": {"t": "own", "of": last}}
+    elif shape == "mm":
+        call = {"model": last if rng.chance(0.2) else None, "repo": {"t": "mm"}}
+    elif shape == "both":
+        call = {"model": last, "repo": {"t": "list", "of": [rng.below(nl)]}}
+    else:
+        call = {"model": None, "repo": rng.choice([None, {"t": "list", "of": []}])}
+    vias = [("tofile", 5), ("fileapi", 2)] + ([("generator", 2)] if shape == "model" and loads[last]["how"] == "file" else [])
+    call["via"] = rng.weighted(vias)
+    wrapper = prov.startswith("import") or rng.chance(0.3)
+    falsy = rng.choice(["len", "bool"]) if wrapper and rng.chance(0.25) else None
+    return {"prov": prov, "mm_global": mm_global, "reg": reg, "loads": loads, "call": call,
+            "wrapper": wrapper, "falsy": falsy}
 
 
 def gen_model_case(rng):
@@ -359,14 +581,18 @@ def gen_model_case(rng):
                 strings.append({"t": "bool", "v": rng.chance(0.5)})
             else:
                 strings.append({"t": "opaque"})
+        legacy = rng.chance(0.4)
         mode = rng.weighted([("single", 4), ("file", 2), ("repo_arg", 3), ("global", 3), ("generator", 2), ("fileapi", 2),
                              ("repo_str", 1)])
-        nfiles = 1 if mode in ("single", "file", "generator", "fileapi") else rng.randint(1, 3)
+        if legacy:
+            nfiles = 1 if mode in ("single", "file", "generator", "fileapi") else rng.randint(1, 3)
+        else:
+            nfiles = rng.randint(1, 3)
         files = []
         ok = True
         names = set()
         for _fi in range(nfiles):
-            root = gen_obj(rng, classes, 0, 0, nstr, [rng.randint(1, 9)])
+            root = gen_obj(rng, classes, 0, 0, nstr, [rng.randint(1, 9) if legacy else rng.randint(1, 6)])
             if not fix_minimal(classes, root) or not assign_refs(rng, classes, root):
                 ok = False
                 break
@@ -375,10 +601,17 @@ def gen_model_case(rng):
                 fn += "x"
             names.add(fn)
             files.append({"fname": fn, "root": root})
-        if ok:
+        if not ok:
+            continue
+        if legacy:
             return {"kind": "model", "mode": mode, "classes": classes, "strings": strings, "files": files}
-    return {"kind": "model", "mode": "single", "classes": [{"attrs": []}], "strings": [{"t": "str", "v": "x"}],
-            "files": [{"fname": "m", "root": {"c": 0, "vals": {}}}]}
+        case = {"kind": "model", "classes": classes, "strings": strings, "files": files}
+        case.update(gen_situation(rng, nfiles, files))
+        assign_cross_refs(rng, case)
+        if valid_case(case):
+            return case
+    return {"kind": "model", "mode": "single", "classes": [{"attrs": [{"n": "a0", "k": "int", "opt": True}]}],
+            "strings": [{"t": "str", "v": "x"}], "files": [{"fname": "m", "root": {"c": 0, "vals": {}}}]}
 
 
 # --------------------------------------------------------------------------
@@ -552,7 +785,11 @@ def run_model_case(case, tmp):
     use_repo()
     from textx import get_children, get_model, metamodel_from_str
     from textx import export as ex
+    from textx.scoping import providers as sp
 
+    case = normalize_case(case)
+    if not valid_case(case):
+        raise ValueError("malformed model case")
     table = []
     for s in case["strings"]:
         if s["t"] == "str":
@@ -565,9 +802,14 @@ def run_model_case(case, tmp):
             table.append(bool(s["v"]))
         else:
             table.append(Opaque)
-    mode = case["mode"]
     classes = case["classes"]
-    mm = metamodel_from_str(grammar_text(classes), global_repository=(mode == "global"))
+    files = case["files"]
+    fnames = [f["fname"] for f in files]
+    prov = case["prov"]
+    wrap = is_wrapped(case)
+    user_classes = [make_falsy_class(case["falsy"])] if case.get("falsy") else []
+    mm = metamodel_from_str(grammar_text(classes, wrap, has_imports(case)), classes=user_classes,
+                            global_repository=bool(case["mm_global"]))
 
     def conv(s):
         v = table[int(s[1:])]
@@ -575,70 +817,100 @@ def run_model_case(case, tmp):
 
     mm.register_obj_processors({"Str": conv})
 
-    def provider(obj, attr, obj_ref):
-        allobjs = get_children(lambda _: True, get_model(obj))
-        return allobjs[int(obj_ref.obj_name[1:])]
+    def numbered(m):
+        """the objects a reference index counts: get_children order below the C0 root"""
+        return get_children(lambda _: True, m.root if wrap else m)
 
+    def own(obj, attr, obj_ref):
+        name = obj_ref.obj_name
+        m = get_model(obj)
+        if name.startswith("x"):
+            j, k = name[1:].split("r")
+            fn = m._tx_filename
+            if fn is None or os.path.basename(fn) != fnames[int(j)]:
+                return None
+        else:
+            k = name[1:]
+        return numbered(m)[int(k)]
+
+    if prov == "own":
+        provider = own
+    elif prov == "import":
+        provider = sp.ImportURI(own, importURI_converter=lambda u: glob.escape(fnames[int(u[1:])]))
+    elif prov == "import_sp":
+        provider = sp.ImportURI(own, search_path=[tmp], importURI_converter=lambda u: fnames[int(u[1:])])
+    else:
+        provider = sp.GlobalRepo(own)
+        for j in case["reg"]:
+            provider.register_models(os.path.join(glob.escape(tmp), glob.escape(fnames[j])))
     mm.register_scope_providers({"*.*": provider})
+    for fi, f in enumerate(files):
+        with open(os.path.join(tmp, f["fname"]), "w", encoding="utf-8") as fh:
+            fh.write(file_text(case, fi))
     models = []
-    for f in case["files"]:
-        text = obj_text(classes, f["root"])
-        if mode in ("single", "repo_str"):
-            models.append(mm.model_from_str(text))
+    for ld in case["loads"]:
+        if ld["how"] == "str":
+            models.append(mm.model_from_str(file_text(case, ld["f"])))
         else:
-            path = os.path.join(tmp, f["fname"])
-            with open(path, "w", encoding="utf-8") as fh:
-                fh.write(text)
-            models.append(mm.model_from_file(path))
+            models.append(mm.model_from_file(os.path.join(tmp, fnames[ld["f"]])))
+    call = case["call"]
+    marg = None if call["model"] is None else models[call["model"]]
+    r = call["repo"]
+    if r is None:
+        rarg = None
+    elif r["t"] == "list":
+        rarg = [models[k] for k in r["of"]]
+    elif r["t"] == "own":
+        rep = getattr(models[r["of"]], "_tx_model_repository", None)
+        rarg = rep.all_models if rep is not None else []
+    else:
+        rarg = mm._tx_model_repository.all_models
+    # what the call gets to see: the arguments and the repository carried by the model
+    repo_models = None if rarg is None else list(rarg)
+    own_models = None
+    if marg is not None and hasattr(marg, "_tx_model_repository"):
+        own_models = list(marg._tx_model_repository.all_models)
+    roots = ([] if marg is None else [marg]) + (repo_models or []) + (own_models or [])
+    objs, idmap = dump_graph(roots)
+
+    def mref(m):
+        return {"fname": str(m._tx_filename).replace(tmp, "TMP"), "id": idmap[id(m)],
+                "kids": [idmap.get(id(o), 0) for o in get_children(lambda _: True, m)]}
+
+    args = {"model": None if marg is None else idmap[id(marg)],
+            "repo": None if repo_models is None else [mref(m) for m in repo_models],
+            "own": None if own_models is None else [mref(m) for m in own_models]}
     out_path = os.path.join(tmp, "out.dot")
-    if mode in ("single", "file"):
-        f = io.StringIO()
-        ex.model_export_to_file(f, models[0])
-        text = f.getvalue()
-        plan = [("plain", models[0])]
-    elif mode == "fileapi":
-        ex.model_export(models[0], out_path)
-        text = open(out_path, encoding="utf-8", newline="").read()
-        plan = [("plain", models[0])]
-    elif mode == "generator":
-        gen = None
-        try:
-            from textx.registration import generator_for_language_target
-
-            gen = generator_for_language_target("any", "dot").generator
-        except Exception:
-            from textx import generators
-
-            g = generators.model_generate_dot
-            gen = getattr(g, "generator", g)
-        outdir = os.path.join(tmp, "outdir")
-        os.makedirs(outdir)
-        gen(mm, models[0], outdir, True, False)
-        produced = os.listdir(outdir)
-        if len(produced) != 1:
-            return {"outcome": "nofile", "files": sorted(produced)}
-        text = open(os.path.join(outdir, produced[0]), encoding="utf-8", newline="").read()
-        plan = [("plain", models[0])]
-    elif mode in ("repo_arg", "repo_str"):
-        f = io.StringIO()
-        ex.model_export_to_file(f, repo=list(models))
-        text = f.getvalue()
-        plan = [("sub", m) for m in models]
-    else:  # global repository
-        f = io.StringIO()
-        ex.model_export_to_file(f, models[-1])
-        text = f.getvalue()
-        plan = [("sub", m) for m in models[-1]._tx_model_repository.all_models]
-    objs, idmap = dump_graph([m for _, m in plan])
-    roots = []
-    for k, m in plan:
-        if k == "plain":
-            roots.append(["plain", idmap[id(m)]])
+    via = call["via"]
+    f = io.StringIO()
+    try:
+        if via == "tofile":
+            ex.model_export_to_file(f, marg, rarg)
+            text = f.getvalue()
+        elif via == "fileapi":
+            ex.model_export(marg, out_path, rarg)
+            text = open(out_path, encoding="utf-8", newline="").read()
         else:
-            kids = [idmap.get(id(o), 0) for o in get_children(lambda _: True, m)]
-            fn = str(m._tx_filename)
-            roots.append(["sub", fn.replace(tmp, "TMP"), kids, idmap[id(m)]])
-    return {"outcome": "ok", "text": norm_ids(text, idmap).replace(tmp, "TMP"), "objs": objs, "roots": roots}
+            gen = None
+            try:
+                from textx.registration import generator_for_language_target
+
+                gen = generator_for_language_target("any", "dot").generator
+            except Exception:
+                from textx import generators
+
+                g = generators.model_generate_dot
+                gen = getattr(g, "generator", g)
+            outdir = os.path.join(tmp, "outdir")
+            os.makedirs(outdir)
+            gen(mm, marg, outdir, True, False)
+            produced = os.listdir(outdir)
+            if len(produced) != 1:
+                return {"outcome": "nofile", "files": sorted(produced), "args": args, "objs": objs}
+            text = open(os.path.join(outdir, produced[0]), encoding="utf-8", newline="").read()
+    except Exception as e:
+        return {"outcome": "raise", "type": type(e).__name__, "msg": str(e)[:200], "args": args, "objs": objs}
+    return {"outcome": "ok", "text": norm_ids(text, idmap).replace(tmp, "TMP"), "objs": objs, "args": args}
 
 
 def run_mm_case(case, tmp):
@@ -738,19 +1010,192 @@ def sort_legend(text):
     return "\n".join(lines[: a + 1] + sorted(lines[a + 1: b]) + lines[b:])
 
 
+def situation_sweep():
+    """A small systematic sweep over the repository situations on a two-file model (runs on every
+    seed): scope provider x global repository x load history x call.  File 0 is the exported
+    model `A`, file 1 the other model `B`."""
+    classes = [{"attrs": [{"n": "name", "k": "name_str", "opt": False}, {"n": "a1", "k": "ref", "opt": True, "c": 0}]}]
+    strings = [{"t": "str", "v": "a|b"}]
+    out = []
+    for prov in PROVS:
+        for mm_global in (False, True):
+            if prov == "import_sp" and mm_global:
+                continue
+            for hist in ("Astr", "Afile", "Afile-sees-B", "Bfile,Astr", "Bfile,Afile", "Afile-sees-B,Bfile"):
+                sees = "sees-B" in hist
+                if sees and prov == "own":
+                    continue
+                a_root = {"c": 0, "vals": {"name": 0, "a1": {"x": 1, "r": 0} if sees else 0}}
+                files = [{"fname": "A.m", "root": a_root}, {"fname": "B{.m", "root": {"c": 0, "vals": {"name": 0}}}]
+                reg = []
+                if sees and prov.startswith("import"):
+                    files[0]["imports"] = [1]
+                elif sees:
+                    reg = [1]
+                loads = [{"f": {"A": 0, "B": 1}[h[0]], "how": "str" if h.endswith("str") else "file"}
+                         for h in hist.replace("-sees-B", "").split(",")]
+                ka = next(k for k, ld in enumerate(loads) if ld["f"] == 0)
+                calls = [{"model": ka, "repo": None}, {"model": ka, "repo": {"t": "own", "of": ka}}]
+                if hist in ("Astr", "Bfile,Astr", "Afile-sees-B"):
+                    calls += [{"model": ka, "repo": {"t": "list", "of": []}}, {"model": None, "repo": {"t": "own", "of": ka}}]
+                if hist == "Bfile,Afile":
+                    calls += [{"model": None, "repo": {"t": "list", "of": [0, 1]}}]
+                    if mm_global:
+                        calls += [{"model": None, "repo": {"t": "mm"}}]
+                for call in calls:
+                    c = {"kind": "model", "classes": classes, "strings": strings, "files": copy.deepcopy(files),
+                         "prov": prov, "mm_global": mm_global, "reg": list(reg), "loads": copy.deepcopy(loads),
+                         "call": dict(call, via="tofile"), "sweep": hist}
+                    if valid_case(c):
+                        out.append(c)
+                    if call is calls[0] and not mm_global and hist in ("Astr", "Afile"):
+                        c = dict(copy.deepcopy(c), wrapper=True, falsy="len" if hist == "Astr" else "bool")
+                        if valid_case(c):
+                            out.append(c)
+    return out
+
+
+def situation_label(obs):
+    """the repository situation the call met (for the evidence)"""
+    a = obs.get("args")
+    if not isinstance(a, dict):
+        return "?"
+    if a["model"] is None:
+        own = "-"
+    elif a["own"] is None:
+        own = "no-repository"
+    elif not a["own"]:
+        own = "empty-repository"
+    else:
+        own = "repository-with-model" if any(m["id"] == a["model"] for m in a["own"]) else "repository-without-model"
+    repo = "None" if a["repo"] is None else ("empty" if not a["repo"] else "models")
+    return f"model={'None' if a['model'] is None else own} repo={repo}"
+
+
+def reindex_files(case, drop):
+    """the case without file `drop` (None when something still refers to it)"""
+    used = {ld["f"] for ld in case["loads"]} | set(case.get("reg", []))
+    for f in case["files"]:
+        used |= set(f.get("imports", []))
+        used |= {t["x"] for _, t in all_refs(case["classes"], f["root"]) if isinstance(t, dict)}
+    if drop in used:
+        return None
+    ren = lambda j: j - 1 if j > drop else j  # noqa: E731
+    c = copy.deepcopy(case)
+    del c["files"][drop]
+    for f in c["files"]:
+        if "imports" in f:
+            f["imports"] = [ren(j) for j in f["imports"]]
+        for o in preorder(c["classes"], f["root"], []):
+            for a in c["classes"][o["c"]]["attrs"]:
+                if a["k"] in ("ref", "refs") and a["n"] in o["vals"]:
+                    v = o["vals"][a["n"]]
+                    fix = lambda t: {"x": ren(t["x"]), "r": t["r"]} if isinstance(t, dict) else t  # noqa: E731
+                    o["vals"][a["n"]] = [fix(t) for t in v] if isinstance(v, list) else fix(v)
+    c["reg"] = [ren(j) for j in c.get("reg", [])]
+    for ld in c["loads"]:
+        ld["f"] = ren(ld["f"])
+    return c
+
+
+def drop_load(case, k):
+    call = case["call"]
+    r = call["repo"]
+    used = ([] if call["model"] is None else [call["model"]])
+    if r is not None and r["t"] == "own":
+        used.append(r["of"])
+    if k in used or len(case["loads"]) < 2:
+        return None
+    ren = lambda j: j - 1 if j > k else j  # noqa: E731
+    c = copy.deepcopy(case)
+    del c["loads"][k]
+    cc = c["call"]
+    if cc["model"] is not None:
+        cc["model"] = ren(cc["model"])
+    if cc["repo"] is not None and cc["repo"]["t"] == "own":
+        cc["repo"]["of"] = ren(cc["repo"]["of"])
+    if cc["repo"] is not None and cc["repo"]["t"] == "list":
+        cc["repo"]["of"] = [ren(j) for j in cc["repo"]["of"] if j != k]
+    return c
+
+
+def shrink_model(case):
+    """smaller candidates of a normalised model case (the caller filters with valid_case)"""
+    files = case["files"]
+    if case["call"]["via"] != "tofile":
+        yield dict(case, call=dict(case["call"], via="tofile"))
+    for k in range(len(case["loads"])):
+        c = drop_load(case, k)
+        if c is not None:
+            yield c
+    for i in range(len(files)):
+        c = reindex_files(case, i)
+        if c is not None:
+            yield c
+    for i, f in enumerate(files):
+        for j in f.get("imports", []):
+            yield dict(case, files=files[:i] + [dict(f, imports=[x for x in f["imports"] if x != j])] + files[i + 1:])
+    for j in case.get("reg", []):
+        yield dict(case, reg=[x for x in case["reg"] if x != j])
+    if case.get("mm_global"):
+        yield dict(case, mm_global=False)
+    if case.get("falsy"):
+        yield dict(case, falsy=None)
+    elif case.get("wrapper"):
+        yield dict(case, wrapper=False)
+    if case.get("prov") == "import_sp":
+        yield dict(case, prov="import")
+    if case.get("prov", "own") != "own":
+        yield dict(case, prov="own")
+    for k, ld in enumerate(case["loads"]):
+        if ld["how"] == "file":
+            yield dict(case, loads=case["loads"][:k] + [dict(ld, how="str")] + case["loads"][k + 1:])
+    r = case["call"]["repo"]
+    if r is not None and r["t"] == "list" and len(r["of"]) > 1:
+        for i in range(len(r["of"])):
+            yield dict(case, call=dict(case["call"], repo={"t": "list", "of": r["of"][:i] + r["of"][i + 1:]}))
+    for i, s in enumerate(case["strings"]):
+        if s["t"] != "str":
+            yield dict(case, strings=case["strings"][:i] + [{"t": "str", "v": "x"}] + case["strings"][i + 1:])
+        elif len(s["v"]) > 0:
+            v = s["v"]
+            cands = {v[: len(v) // 2], v[len(v) // 2:], v[1:], v[:-1]}
+            for c in sorted(cands, key=len):
+                if c != v:
+                    yield dict(case, strings=case["strings"][:i] + [{"t": "str", "v": c}] + case["strings"][i + 1:])
+    for fi, f in enumerate(files):
+        if len(f["fname"]) > 1:
+            for c in (f["fname"][1:], f["fname"][:-1]):
+                if c not in (".", "..", "") and c.strip(" ") == c and all(c != g["fname"] for g in files):
+                    yield dict(case, files=files[:fi] + [dict(f, fname=c)] + files[fi + 1:])
+        for path, sub in list(walk_objs(case["classes"], f["root"])):
+            for an in list(sub["vals"].keys()):
+                a = next(x for x in case["classes"][sub["c"]]["attrs"] if x["n"] == an)
+                if a["opt"] or (a["k"] in ("strs", "ints", "mixed", "children", "refs") and not a.get("plus")):
+                    nf = copy.deepcopy(f)
+                    tgt = follow(case["classes"], nf["root"], path)
+                    if a["opt"]:
+                        del tgt["vals"][an]
+                    else:
+                        tgt["vals"][an] = []
+                    yield dict(case, files=files[:fi] + [nf] + files[fi + 1:])
+
+
 class Prop(Check):
     ID = "C29"
     LEAN_MODULE = "TextxVerif.Props.C29"
     THEOREMS = []  # filled below
     DRIVER = "Drivers/Dot.lean"
-    QUICK_CASES = 450
+    QUICK_CASES = 400
     THOROUGH_CASES = 12000
     PROCS_THOROUGH = 4
     RULE = ("non-trivial = a string containing one of \" \\ { } | < > newline reaches an escaped hole of the export "
-            "(object name, attribute value, list item, file name, match-rule body) or dot_repr truncates")
+            "(object name, attribute value, list item, file name, match-rule body) or dot_repr truncates, or the call of "
+            "the model export is not the plain one (a repo argument is given or the model carries a repository)")
     MODELLED = ("regenerated each run (tie T): dot_escape replace chain, dot_repr limit/delimiters, HEADER "
-                "(Gen/DotExport.lean); hand-modelled (tie X, exact text): model_export_to_file incl. _export recursion, "
-                "processed set, repo / subgraph handling; metamodel_export_tofile with DotRenderer and PlantUmlRenderer; "
+                "(Gen/DotExport.lean); hand-modelled (tie X, exact text): model_export_to_file incl. the argument checks and the "
+                "choice of the exported models from model / repo / model._tx_model_repository.all_models (planArgs; the "
+                "three are dumped from the live objects before the call), _export recursion, processed set, subgraph handling; metamodel_export_tofile with DotRenderer and PlantUmlRenderer; "
                 "inputs taken as data: _tx_attrs meta data, attribute values, id(), get_children, get_unified_classes, "
                 "dot_match_str, html.escape (modelled, checked by the text comparison); not exhibited: file-system "
                 "errors, set iteration order of PlantUML legend rows (compared sorted)")
@@ -759,6 +1204,8 @@ class Prop(Check):
         "Graphviz >= 2.30 scanner: a backslash inside a quoted string protects the next character",
         "record-label grammar as in Graphviz lib/common/shapes.c parse_reclbl",
         "str() of int / float / bool contains no character that is special in DOT strings or record labels",
+        "repo is None or a sized iterable of models (list, ModelRepository); an empty iterator (truthy) is not generated",
+        "the `any -> dot` generator is called with models loaded from a file (it derives the output name from the file name)",
     ]
 
     def TRANSLATE(self=None):
@@ -768,6 +1215,7 @@ class Prop(Check):
 
     # ---------------------------------------------------------------- cases
     def gen(self, rng, n, tier):
+        yield from situation_sweep()
         for i in range(n):
             r = i % 10
             if r < 5:
@@ -818,13 +1266,13 @@ class Prop(Check):
 
     # ---------------------------------------------------------------- model
     def model_req(self, case, obs):
+        k = case["kind"]
+        if k == "model" and obs.get("outcome") in ("ok", "raise") and "args" in obs:
+            return {"op": "export", "objs": obs["objs"], "args": obs["args"], "text": obs.get("text")}
         if obs.get("outcome") != "ok":
             return None
-        k = case["kind"]
         if k == "escape":
             return {"op": "escape", "s": case["s"]}
-        if k == "model":
-            return {"op": "model", "objs": obs["objs"], "roots": obs["roots"], "text": obs["text"]}
         if k == "mm":
             return {"op": "mm", "classes": obs["classes"], "base": obs["base"], "renderer": case["renderer"],
                     "linetype": case["linetype"], "text": obs["text"]}
@@ -839,6 +1287,12 @@ class Prop(Check):
                 if out[f] != obs[f]:
                     return f"{f}: implementation {obs[f]!r}, model {out[f]!r}"
             return None
+        if k == "model":
+            if out["raises"] != (obs["outcome"] == "raise"):
+                return (f"argument handling: implementation {'raises ' + str(obs.get('type')) if obs['outcome'] == 'raise' else 'exports'}, "
+                        f"model {'raises' if out['raises'] else 'exports ' + str(out.get('roots'))}")
+            if out["raises"]:
+                return None
         if out.get("text") is None:
             return "model produced no text (fuel / dangling id)"
         if out.get("domain") is not True:
@@ -873,6 +1327,15 @@ class Prop(Check):
             if want_raise != (obs["outcome"] == "raise"):
                 return f"model={case['model']} repo={case['repo']}: outcome {obs['outcome']}"
             return None
+        if k == "model" and "args" in obs:
+            # the documented contract: exactly one of model / repo; an empty repo is no repo
+            a = obs["args"]
+            want_raise = (a["model"] is not None) == bool(a["repo"])
+            if want_raise:
+                if obs["outcome"] == "raise" and obs.get("type") == "Exception":
+                    return None
+                return (f"model {'given' if a['model'] is not None else 'missing'} and repo "
+                        f"{'given' if a['repo'] else 'missing'}: outcome {obs['outcome']} {obs.get('type')}")
         if obs.get("outcome") != "ok":
             return f"export failed: {obs.get('outcome')} {obs.get('type')} {obs.get('msg') or obs.get('why') or obs.get('files')}"
         if k == "escape":
@@ -895,10 +1358,29 @@ class Prop(Check):
             if problem:
                 return problem
             stmts = [i[1] for i in g.node_stmts]
+            # The objects that must have a node are decided from what the caller asked for, not from
+            # what the implementation chose to export: every object reachable (through `_tx_attrs`
+            # values) from the `model` argument and from each model of the `repo` argument.
+            a = obs["args"]
+            byid = {o["id"]: o for o in obs["objs"]}
+            todo = ([] if a["model"] is None else [a["model"]]) + [m["id"] for m in (a["repo"] or [])]
+            asked = set()
+            while todo:
+                i = todo.pop()
+                if i in asked or i not in byid:
+                    continue
+                asked.add(i)
+                for at in byid[i]["attrs"] or []:
+                    v = at["val"]
+                    for x in (v if isinstance(v, list) else [v]):
+                        if isinstance(x, dict) and "o" in x:
+                            todo.append(x["o"])
             # node statements inside clusters only list members; the defining ones carry a label
             for o in obs["objs"]:
                 nid = ("num", str(o["id"]))
                 if nid not in g.nodes or "label" not in g.nodes[nid]["attrs"]:
+                    if o["id"] not in asked:
+                        continue  # an object of another model of the carried repository only
                     return f"no node for object {o['id']} ({o['cls']})"
                 lab = g.nodes[nid]["attrs"]["label"]
                 fields = c29_dot.record_fields(c29_dot.unquote(lab[1]))
@@ -950,10 +1432,12 @@ class Prop(Check):
                     for x in (v if isinstance(v, list) else [v]):
                         if isinstance(x, dict) and x.get("p") == "str":
                             vals.append(x["v"])
-            for r in obs["roots"]:
-                if r[0] == "sub":
-                    vals.append(r[1])
-            return any(ch in SPECIAL for v in vals for ch in v) or any(len(v) > 20 for v in vals)
+            a = obs["args"]
+            for m in (a["repo"] or []) + (a["own"] or []):
+                vals.append(m["fname"])
+            # ... or the call is not the plain `model_export(model)` of a model without repository
+            return (any(ch in SPECIAL for v in vals for ch in v) or any(len(v) > 20 for v in vals)
+                    or a["repo"] is not None or a["own"] is not None)
         if k == "mm":
             return any(ch in SPECIAL for c in obs["classes"] for ch in c["match_str"])
         return False
@@ -967,39 +1451,9 @@ class Prop(Check):
                 yield {"kind": "escape", "s": s[:i] + s[i + 1:]}
             return
         if k == "model":
-            if len(case["files"]) > 1:
-                for i in range(len(case["files"])):
-                    yield dict(case, files=case["files"][:i] + case["files"][i + 1:])
-            if case["mode"] not in ("single", "repo_arg", "repo_str"):
-                yield dict(case, mode="repo_arg" if case["mode"] == "global" else "single")
-            for i, s in enumerate(case["strings"]):
-                if s["t"] != "str":
-                    yield dict(case, strings=case["strings"][:i] + [{"t": "str", "v": "x"}] + case["strings"][i + 1:])
-                elif len(s["v"]) > 0:
-                    v = s["v"]
-                    cands = {v[: len(v) // 2], v[len(v) // 2:], v[1:], v[:-1]}
-                    for c in sorted(cands, key=len):
-                        if c != v:
-                            yield dict(case, strings=case["strings"][:i] + [{"t": "str", "v": c}] + case["strings"][i + 1:])
-            for fi, f in enumerate(case["files"]):
-                if len(f["fname"]) > 1:
-                    for c in (f["fname"][1:], f["fname"][:-1]):
-                        if c not in (".", "..", "") and c.strip(" ") == c and all(c != g["fname"] for g in case["files"]):
-                            yield dict(case, files=case["files"][:fi] + [dict(f, fname=c)] + case["files"][fi + 1:])
-                for path, sub in list(walk_objs(case["classes"], f["root"])):
-                    for an in list(sub["vals"].keys()):
-                        a = next(x for x in case["classes"][sub["c"]]["attrs"] if x["n"] == an)
-                        if a["opt"] or (a["k"] in ("strs", "ints", "mixed", "children", "refs") and not a.get("plus")):
-                            import copy
-
-                            nf = copy.deepcopy(f)
-                            tgt = follow(case["classes"], nf["root"], path)
-                            if a["opt"]:
-                                del tgt["vals"][an]
-                            else:
-                                tgt["vals"][an] = []
-                            if refs_valid(case["classes"], nf["root"]):
-                                yield dict(case, files=case["files"][:fi] + [nf] + case["files"][fi + 1:])
+            for cand in shrink_model(normalize_case(case)):
+                if valid_case(cand):
+                    yield cand
             return
         if k == "mm":
             rules = case["rules"]
@@ -1055,12 +1509,15 @@ class Prop(Check):
 
     def extra_evidence(self, cases, obs, model_outs):
         kinds = {}
-        dot_checked = 0
+        situations = {}
         for c, o in zip(cases, obs):
-            key = c["kind"] + (":" + c.get("mode", c.get("renderer", "")) if c["kind"] in ("model", "mm") else "")
+            key = c["kind"] + (":" + c.get("mode", c.get("renderer", c.get("prov", ""))) if c["kind"] in ("model", "mm") else "")
             kinds[key] = kinds.get(key, 0) + 1
+            if c["kind"] == "model" and isinstance(o, dict):
+                key = situation_label(o) + " -> " + str(o.get("outcome"))
+                situations[key] = situations.get(key, 0) + 1
         gv = graphviz_crosscheck(cases, obs, limit=8 if len(cases) < 2000 else 60)
-        return {"distribution": kinds, "graphviz_crosscheck": gv}
+        return {"distribution": kinds, "call_situations": situations, "graphviz_crosscheck": gv}
 
 
 def graphviz_crosscheck(cases, obs, limit):
@@ -1157,4 +1614,9 @@ Prop.THEOREMS = [
     "Dot.C29_metamodel_dot_checked",
     "Dot.C29_plantuml_checked",
     "Dot.C29_unescaped_false",
+    "Dot.C29_call_argcheck",
+    "Dot.C29_call_covers",
+    "Dot.C29_export_call_valid",
+    "Dot.C29_export_call_checked",
+    "Dot.C29_model_outside_repo_false",
 ]
